@@ -66,3 +66,58 @@ pub use self::job_queue::{JobQueue};
 pub use self::queue_resumer::{QueueResumer};
 pub use self::try_sync_error::{TrySyncError};
 pub use self::scheduler_future::{SchedulerFuture};
+
+///
+/// Short class name of a logged mutex: what it protects, from the type of the protected data and the file that creates it
+///
+#[cfg(desync_verif)]
+pub (crate) fn verif_class(type_name: &str, file: &str) -> String {
+    let t = type_name;
+    let short = if t.ends_with("JobQueueCore") { "core" }
+        else if t.contains("VecDeque") && t.contains("JobQueue") { "sched" }
+        else if t.starts_with("alloc::vec::Vec<(") && t.contains("SchedulerThread") { "threads" }
+        else if t == "usize" { "max" }
+        else if t == "bool" && file == "core.rs" { "busy" }
+        else if t == "bool" && file == "desync_scheduler.rs" { "ready" }
+        else if t.contains("SchedulerFutureResult") { "fres" }
+        else if t.contains("DrainWakerState") { "dwaker" }
+        else if t.starts_with("core::option::Option<(") && t.contains("Waker") && file == "scheduler_future.rs" { "dblwaker" }
+        else if t.contains("PipeStreamCore") { "pstream" }
+        else if t.contains("PipeContext") { "pwaker" }
+        else if t.starts_with("core::option::Option<") && file == "desync_scheduler.rs" { "syncres" }
+        else if t.starts_with("core::option::Option<") && file == "pipe.rs" { "pollfn" }
+        else if file == "pipe.rs" { "pipeobj" }
+        else { "" };
+
+    if short == "" { format!("{}@{}", t, file) } else { short.to_string() }
+}
+
+///
+/// Snapshot of the data protected by a logged mutex (non-generic scheduler types only)
+///
+#[cfg(desync_verif)]
+pub (crate) fn verif_probe(class: &str, ptr: *const ()) -> String {
+    use std::collections::VecDeque;
+    use crate::verif::sync::{Arc, Mutex};
+
+    unsafe {
+        match class {
+            "core"      => {
+                let core = &*(ptr as *const job_queue::JobQueueCore);
+                format!("{:?}/{}/{}", core.state, core.queue.len(), core.wake_blocked.len())
+            }
+            "sched"     => {
+                let s = &*(ptr as *const VecDeque<Arc<JobQueue>>);
+                format!("{:?}", s.iter().map(|q| q.core.id()).collect::<Vec<_>>())
+            }
+            "threads"   => {
+                let t = &*(ptr as *const Vec<(Arc<Mutex<bool>>, scheduler_thread::SchedulerThread)>);
+                format!("{}", t.len())
+            }
+            "busy" | "ready"    => format!("{}", *(ptr as *const bool)),
+            "max"               => format!("{}", *(ptr as *const usize)),
+            "dwaker"            => scheduler_future::verif_drain_waker_state(ptr),
+            _                   => String::new()
+        }
+    }
+}
